@@ -407,7 +407,7 @@ fn h_alphabet() -> Vec<HOp> {
 }
 
 fn part_b(tier: &str) -> Stats {
-    let depth: usize = std::env::var("C11_DEPTH").ok().and_then(|s| s.parse().ok()).unwrap_or(if tier == "thorough" { 4 } else { 3 });
+    let depth: usize = std::env::var("C11_DEPTH").ok().and_then(|s| s.parse().ok()).unwrap_or(if tier == "thorough" { 5 } else { 3 });
     let alpha = h_alphabet();
     let firsts: Vec<usize> = (0..alpha.len()).collect();
     let ls = leaves();
